@@ -354,7 +354,8 @@ static inline void shadow_access (uintptr_t addr, int size, int kind, uintptr_t 
 		}
 	}
 	// C19: between a failed constructor allocation and the constructor's return nothing that already exists may be written
-	if (kind == 1 && f->no_write_window && r->kind == REG_ARENA) {
+	// (stores made inside nsync_mu_* do not count: a constructor may take and release the parent's lock, which leaves it unchanged)
+	if (kind == 1 && f->no_write_window && r->kind == REG_ARENA && !nsim_fibre_in_func (f->tid, "nsync_mu_")) {
 		char a[256];
 		describe_stack (f, pc, a, sizeof a);
 		rt_violation ("C19", V_ORACLE, "write-after-failed-alloc", "store to existing object at 0x%lx after the constructor's allocation failed, in %s", (unsigned long) addr, a);
@@ -378,6 +379,7 @@ extern "C" void nsim_watch_set (int slot, const void *p) {
 	g.watch[slot].addr = (uintptr_t) p; g.watch[slot].first_tid = -1; g.watch[slot].active = 1;
 }
 extern "C" int nsim_watch_first_writer (int slot) { return (slot >= 0 && slot < NSIM_MAXWATCH && g.watch[slot].active) ? g.watch[slot].first_tid : -1; }
+extern "C" const void *nsim_watch_addr (int slot) { return (slot >= 0 && slot < NSIM_MAXWATCH && g.watch[slot].active) ? (const void *) g.watch[slot].addr : NULL; }
 extern "C" void nsim_watch_arm_on_store (int slot, const char *func) { if (g.cur) { g.cur->aw_slot = slot; g.cur->aw_func = func; } }
 extern "C" void nsim_watch_clear (int slot) {
 	if (slot < 0 || slot >= NSIM_MAXWATCH || !g.watch[slot].active) return;
@@ -898,7 +900,7 @@ extern "C" void __tsan_atomic32_store (volatile uint32_t *p, uint32_t v, int mo)
 	uintptr_t pc = (uintptr_t) __builtin_return_address (0);
 	atomic_prologue ((uintptr_t) p, true, pc);
 	*p = v;
-	if (f->aw_func && strstr (rt_symname (pc), f->aw_func)) {
+	if (f->aw_func && v == 1 && strstr (rt_symname (pc), f->aw_func)) {      // "waiting = 1"
 		nsim_watch_set (f->aw_slot, (const void *) p);
 		f->aw_func = NULL;
 	}
